@@ -30,6 +30,12 @@ def scripts(rnd, quick, F):
                         plen -= plen % ws
                         n = plen // ws
                         o = request(tr, 1, mem16, rnd.randint(0, 65535), rnd.getrandbits(32), n, [rnd.randint(0, 255) for _ in range(plen)])
+                        if plen and cap - 2 <= flen <= cap + 2:
+                            # the same length with a SLIP control octet as the very last (and first) payload octet
+                            for last in (192, 219):
+                                pl2 = [last] + [rnd.randint(0, 255) for _ in range(plen - 2)] + [last] if plen >= 2 else [last]
+                                o2 = request(tr, 1, mem16, rnd.randint(0, 65535), rnd.getrandbits(32), n, pl2[:plen])
+                                sc.append(rx(tr, mem16, cap, wire(tr, o2), verdict=0))
                     else:
                         o = request(tr, 0, mem16, 7, 0x1000, 1)[:flen]
                     sc.append(rx(tr, mem16, cap, wire(tr, o), verdict=rnd.choice([0, 0, 7]), allocfail=rnd.choice([0, 2])))
